@@ -2,6 +2,7 @@
 # SPDX-License-Identifier: BSD-4-Clause
 from __future__ import annotations
 
+import pickle
 import sys
 import time
 from collections.abc import Callable, Iterable, Mapping
@@ -22,6 +23,29 @@ type VisualFunc = Func
 
 class TaskStop(Exception):
     pass
+
+
+class TaskError(Exception):
+    """Stands in for a captured exception that cannot travel between processes"""
+
+    def __init__(self, typename: str, message: str):
+        super().__init__(typename, message)
+        self.typename = typename
+        self.message = message
+
+    def __str__(self) -> str:
+        return f'{self.typename}: {self.message}'
+
+
+def portable(e: BaseException) -> BaseException:
+    # NOTE: an exception that does not survive pickling (a constructor
+    #   that does not take .args, an unpicklable attribute) breaks the pool
+    #   when the result is sent back, and every pending result is lost
+    try:
+        pickle.loads(pickle.dumps(e))  # noqa: S301
+    except Exception:
+        return TaskError(type(e).__name__, str(e))
+    return e
 
 
 class Task(NamedTuple):
@@ -65,7 +89,7 @@ def taskproc(task: Task) -> Result:
     except RuntimeError:
         raise
     except (Exception, RecursionError) as e:
-        result.exception = e
+        result.exception = portable(e)
         if task.reraise or (
             (raises := task.payload.raises())
             and not any(isinstance(e, r) for r in raises)
